@@ -42,9 +42,41 @@ def run(prop, tier, seed, undischarged):
     res = Cp.Result()
     res.prop = prop
     t_end = time.time() + (budget(tier, 150, 1500))
+    run_corpus(res, prop, seed)
+    if res.findings:
+        return res
     fn = RUNNERS[prop]
     fn(res, tier, seed, t_end, undischarged)
     return res
+
+
+def run_corpus(res, prop, seed):
+    """histories that exposed a (seeded or genuine) defect once are replayed first, in both emulated versions"""
+    d = os.path.join(VERIF, 'corpus', prop)
+    if not os.path.isdir(d):
+        return
+    n = 0
+    for fn in sorted(os.listdir(d)):
+        try:
+            rec = json.load(open(os.path.join(d, fn)))
+            evs = [corr.ev_from_json(e) for e in rec['events']]
+        except Exception as e:      # noqa
+            res.notes.append('corpus entry %s unreadable: %r' % (fn, e))
+            continue
+        for version in sorted({rec.get('version', 7), 6, 7}):
+            s, dv = Cp.replay_events(evs, version, rec.get('seed', 0), OBSERVERS.get(prop, ()))
+            res.absorb(s)
+            n += 1
+            for v in s.violations:
+                if res.add({'kind': 'monitor', 'property': v.prop, 'clause': v.clause, 'detail': v.detail, 'corpus': fn, 'version': version, 'seed': rec.get('seed', 0),
+                            'events': rec['events']}):
+                    return
+            if dv is not None and Cp.judge(dv, None) != 'out-of-scope':
+                if res.add({'kind': 'divergence', 'verdict': Cp.judge(dv, None), 'what': dv.what, 'corpus': fn, 'version': version, 'seed': rec.get('seed', 0),
+                            'events': rec['events'], 'impl': dv.impl_side, 'model': dv.model_side, 'at': corr.ev_json(dv.event)}):
+                    return
+    res.notes.append('corpus: %d regression histories replayed' % n)
+    res.cells.add(('corpus', n > 0))
 
 
 def run_C16(res, tier, seed, t_end, bad):
